@@ -76,7 +76,7 @@ func VerifC18RateExtrapolation() {
 	mode := verifrt.Choose("mode", 3) // rate, increase (counters) and delta (gauge)
 	isCounter, isRate := mode < 2, mode == 0
 	ranges := []int64{1500, 60000, 500, 4000} // milliseconds: fractional seconds, whole seconds, below a second
-	rangeNs := ranges[verifrt.Choose("range", 2+2*tier)] * 1000000
+	rangeNs := ranges[verifrt.Choose("range", 1+3*tier)] * 1000000
 	evalT := int64(3600) * 1000000000
 	ts := make([]int64, n)
 	vs := make([]float64, n)
